@@ -38,11 +38,11 @@ BUDGET_S = {'quick': 1500, 'thorough': 2400}
 NAME_RE = '[A-Za-z0-9_.\\-]+'
 SYNTAX = set('*><,?&=:~ \t\n\r/#%+;')
 
-CONCRETE = ['blabla/x?project=hamlet', 'hamlet/a/char/x/art/v001/p/hou?project=hamlet', 'hamlet/a/char/x/art/v001/p/ma,zzz?project=*', 'hamlet/a/char/foo--start--/model,rig', 'hamlet/a/char,prop/--start--', 'hamlet/s/sq010/sh0010/**/maya?state=w', 'hamlet/a,s/**/cache,movie', 'hamlet/*/**', 'blabla?foo=bar', 'hamlet/a/char/x y ,z/model']
+CONCRETE = ['hamlet/a/char/x/art/v001/p/ma, maya', 'hamlet/a/char/x/art/v001/p/maya , mov', 'hamlet/a/char/x/art/v001/p/*?ext=mov, maya', 'hamlet/s/sq010/sh0010/anim/v001/w/**/ma, cache', 'blabla/x?project=hamlet', 'hamlet/a/char/x/art/v001/p/hou?project=hamlet', 'hamlet/a/char/x/art/v001/p/ma,zzz?project=*', 'hamlet/a/char/foo--start--/model,rig', 'hamlet/a/char,prop/--start--', 'hamlet/s/sq010/sh0010/**/maya?state=w', 'hamlet/a,s/**/cache,movie', 'hamlet/*/**', 'blabla?foo=bar', 'hamlet/a/char/x y ,z/model']
 def leaf_key(T):
     base = T.split(C.conf('sidtype_keytype_sep'))[0]
     return C.conf('leaf_keys').get(base)
-def is_leaf_type(T): return C.keys_of(T)[-1] == leaf_key(T)
+def is_leaf_type(T): return isinstance(T, str) and T in C.spec_templates() and C.keys_of(T)[-1] == leaf_key(T)
 def aliases_for(T):
     pat = C.spec_templates()[T][-1][1]; import re
     return [a for a in C.conf('extension_alias') if re.fullmatch(pat, a)]
